@@ -79,3 +79,60 @@ def file_classes(rng=None):
             p = grammar.gen_program(random.Random(rng.getrandbits(48)), kind="c")
             cls["clean"].append(p.text.replace(header.header42(p.name), header.header42("x.c")) if False else p.text)
     return cls
+
+
+# Conforming shapes that the generator does not produce (postfix ++/-- inside expressions,
+# statements wrapped over several lines): accepted by the unchanged tool, used by C01/C02.
+EXTRA_CONFORMING_BODY = """
+#include <unistd.h>
+
+static int	compute(int a, int b, int c)
+{
+	return (a + b * c);
+}
+
+int	ft_shift(char *src, int n)
+{
+	int	i;
+	int	x;
+
+	i = 0;
+	x = 0;
+	while (n-- - 1 > 0)
+		x += src[i++ + 1];
+	x = compute(i++ + 1, x,
+			n);
+	if (x > 0 && i < n
+		&& src[i] != 0)
+		return (i++ + 1);
+	ft_putnbr(i-- - n);
+	return (x-- - 1);
+}
+"""
+
+
+def extra_conforming():
+    return [("ft_shift.c", header.header42("ft_shift.c") + EXTRA_CONFORMING_BODY)]
+
+
+def extra_violating():
+    """(name, text, code, line): single violations placed on CONTINUATION lines of wrapped statements"""
+    name, src = extra_conforming()[0]
+    lines = src.split("\n")
+    out = []
+    for i, l in enumerate(lines):
+        if l.strip() == "n);":
+            v = list(lines); v[i] = l.replace("n);", "n ? n : x);")
+            out.append((name, "\n".join(v), "TERNARY_FBIDDEN", i + 1))
+            v = list(lines); v[i] = l.replace("n);", "n); ")
+            out.append((name, "\n".join(v), "SPC_BEFORE_NL", i + 1))
+        if l.strip() == "&& src[i] != 0)":
+            v = list(lines); v[i] = l.replace("src[i] != 0)", "(src[i] ? 1 : 0))")
+            out.append((name, "\n".join(v), "TERNARY_FBIDDEN", i + 1))
+            v = list(lines); v[i] = l + " "
+            out.append((name, "\n".join(v), "SPC_BEFORE_NL", i + 1))
+    for i, l in enumerate(lines):
+        if l.startswith("\tif (x > 0") or l.startswith("\twhile (n--"):
+            v = list(lines); v[i] = l + " "
+            out.append((name, "\n".join(v), "SPC_BEFORE_NL", i + 1))
+    return out
